@@ -155,6 +155,7 @@ def shapes_for(L, quick):
         out.append([2] + [1] * (L - 1))
         out.append([1] * L + ['t'])
         out.append([1] * (L - 1) + ['t'])
+        out.append(['t'])
     return out
 
 
